@@ -301,7 +301,7 @@ def execute(case):
     # fresh interpreter: receives only the text
     if texts:
         path = env.scratch_root() / f"docs_{os.getpid()}_{case['n']}.json"
-        path.write_text(json.dumps(texts))
+        path.write_text(json.dumps(texts), encoding="utf-8")
         r = subprocess.run([sys.executable, "-m", "mc.codecsnap", str(path)], capture_output=True, text=True, cwd=str(env.VERIF), env={**os.environ, "PYTHONPATH": str(env.VERIF)})
         path.unlink()
         if r.returncode != 0:
